@@ -359,12 +359,11 @@ def C04_container_total_full : Prop :=
   ∀ (ci : CallInfo) (b : BuilderId) (c : Container) (p : PriorKind), c.inScope = true →
     ∃ r, builderContainers theSite ci b c p = .ok r
 
-/-- what holds for the source as it is: every call returns except
-* `mle` on a sparse matrix with a dense (ndarray) prior and ≥ 2 states: `C + prior_counts` is a
-  `numpy.matrix` on which `_prinz_mle_py` raises `ValueError`
-  (known finding `mle-sparse-dense-prior-npmatrix`);
-* `transpose` with populations on a `bsr_matrix` stored with blocks larger than 1×1: scipy's
-  `bsr_matrix.sum()` raises `ValueError` (known finding `transpose-bsr-total-sum-valueerror`). -/
+/-- for an arbitrary source: every call returns except
+* `mle` on a sparse matrix with a dense (ndarray) prior and ≥ 2 states when
+  `_apply_prior_counts` leaves the `numpy.matrix` that scipy produces;
+* `transpose` with populations on a `bsr_matrix` stored as several blocks larger than 1×k when
+  the source calls `C_sym.sum()` without an axis. -/
 theorem container_total_partial (site : Site) (ci : CallInfo) (b : BuilderId) (c : Container)
     (p : PriorKind) (hc : c.inScope = true)
     (hex1 : ¬ (b = .mle ∧ c.isSparse = true ∧ p = .dense ∧ site.priorMatrixToArray = false
@@ -408,23 +407,40 @@ theorem container_total_partial (site : Site) (ci : CallInfo) (b : BuilderId) (c
               simp_all [priorContainer, Container.isSparse])
           | simp_all [priorContainer, Container.inScope]
 
-/-- once both call sites are repaired every combination returns -/
+/-- with both call sites in their repaired form every combination returns -/
 theorem container_total_of_fix (site : Site) (h1 : site.priorMatrixToArray = true)
     (h2 : site.transposeTotalSum = false) (ci : CallInfo) (b : BuilderId) (c : Container)
     (p : PriorKind) (hc : c.inScope = true) : ∃ r, builderContainers site ci b c p = .ok r :=
   container_total_partial site ci b c p hc (by simp [h1]) (by simp [h2])
 
-/-- on the source as it is the full statement fails (two independent witnesses) -/
-theorem container_total_counterexample
-    (hsite : Ens.Generated.BuildersSite.priorMatrixToArray = false ∨
-             Ens.Generated.BuildersSite.transposeTotalSum = true) :
-    ¬ C04_container_total_full := by
-  intro h
-  rcases hsite with hs | hs
-  · obtain ⟨r, hr⟩ := h ⟨true, true, false⟩ .mle (.spmatrix .csr) .dense rfl
-    simp [builderContainers, priorContainer, theSite, hs] at hr
-  · obtain ⟨r, hr⟩ := h ⟨true, true, true⟩ .transpose (.spmatrix .bsr) .none rfl
-    simp [builderContainers, priorContainer, theSite, hs, transposePair_eq] at hr
+/-- the source the translator read has the repaired call sites: `_apply_prior_counts`
+converts `numpy.matrix` to `ndarray`, `transpose` divides by a float and totals the row sums.
+(If the source regresses, the regenerated `Model.Generated.BuildersSite` makes this fail.) -/
+theorem site_is_fixed :
+    theSite = { priorMatrixToArray := true, transposeHalfIntLiteral := false,
+                transposeTotalSum := false } := by
+  rfl
+
+/-- **Full statement, for the code as it is**: every builder returns for every in-scope
+container, prior kind and call. -/
+theorem container_total : C04_container_total_full := by
+  intro ci b c p hc
+  exact container_total_of_fix theSite (by rw [site_is_fixed]) (by rw [site_is_fixed]) ci b c p hc
+
+/-- about the *old* source (flags `priorMatrixToArray = false`, `transposeTotalSum = true`,
+before the `fix:` commits) only: there the statement failed, with two independent witnesses -/
+theorem container_total_old_source_counterexample :
+    (¬ ∀ (ci : CallInfo) (b : BuilderId) (c : Container) (p : PriorKind), c.inScope = true →
+        ∃ r, builderContainers ⟨false, false, false⟩ ci b c p = .ok r) ∧
+    (¬ ∀ (ci : CallInfo) (b : BuilderId) (c : Container) (p : PriorKind), c.inScope = true →
+        ∃ r, builderContainers ⟨true, false, true⟩ ci b c p = .ok r) := by
+  constructor
+  · intro h
+    obtain ⟨r, hr⟩ := h ⟨true, true, false⟩ .mle (.spmatrix .csr) .dense rfl
+    simp [builderContainers, priorContainer] at hr
+  · intro h
+    obtain ⟨r, hr⟩ := h ⟨true, true, true⟩ .transpose (.spmatrix .bsr) .none rfl
+    simp [builderContainers, priorContainer, transposePair_eq] at hr
 
 /-! ### the returned counts of `transpose`: `C_sym / 2` -/
 
@@ -435,9 +451,9 @@ def C04_transpose_counts_full : Prop :=
   ∀ (c : Container) (intDtype : Bool) (x : Rat), c.inScope = true →
     halfEntry (halfTruncates Ens.Generated.BuildersSite.transposeHalfIntLiteral c intDtype) x = x / 2
 
-/-- what holds for the source as it is: exact halves except for `lil_matrix`/`dok_matrix` of
-integer dtype, where scipy's true division by the integer literal `2` keeps the integer dtype
-and truncates (known finding `transpose-counts-truncated-lil-dok-int`) -/
+/-- for an arbitrary source: exact halves except for `lil_matrix`/`dok_matrix` of integer
+dtype when the divisor is the integer literal `2` (scipy then keeps the integer dtype and
+truncates) -/
 theorem transpose_counts_partial (intLiteral : Bool) (c : Container) (intDtype : Bool) (x : Rat)
     (hex : ¬ (intLiteral = true ∧ intDtype = true ∧ (c = .spmatrix .lil ∨ c = .spmatrix .dok))) :
     halfEntry (halfTruncates intLiteral c intDtype) x = x / 2 := by
@@ -451,12 +467,19 @@ theorem transpose_counts_of_fix (c : Container) (intDtype : Bool) (x : Rat) :
     halfEntry (halfTruncates false c intDtype) x = x / 2 :=
   transpose_counts_partial false c intDtype x (by simp)
 
-theorem transpose_counts_counterexample
-    (hsite : Ens.Generated.BuildersSite.transposeHalfIntLiteral = true) :
-    ¬ C04_transpose_counts_full := by
+/-- **Full statement, for the code as it is** (the source divides by `2.0`) -/
+theorem transpose_counts : C04_transpose_counts_full := by
+  intro c intDtype x _
+  have h : Ens.Generated.BuildersSite.transposeHalfIntLiteral = false := by decide
+  rw [h]
+  exact transpose_counts_of_fix c intDtype x
+
+/-- about the *old* source (integer literal divisor) only: lil, 23 ↦ 11 ≠ 23/2 -/
+theorem transpose_counts_old_source_counterexample :
+    ¬ ∀ (c : Container) (intDtype : Bool) (x : Rat), c.inScope = true →
+        halfEntry (halfTruncates true c intDtype) x = x / 2 := by
   intro h
   have h1 := h (.spmatrix .lil) true 23 rfl
-  rw [hsite] at h1
   have hf : ((23 : Rat) / 2).floor = 11 := by
     show ⌊((23 : Rat) / 2)⌋ = 11
     norm_num [Int.floor_eq_iff]
